@@ -125,21 +125,23 @@ Lemma dec_list_dj {A B} (d : json -> option A) (e : B -> json) `{!DJ d e} b l :
 Proof. cbn. rewrite dj. reflexivity. Qed.
 
 (* ---- object lookup ---- *)
-Lemma get_app ns a b : get ns (a ++ b) = lmerge (get ns a) (get ns b).
+Lemma get_kv_of_absent ns fs : countf ns fs = 0%nat -> get ns (kv_of fs) = Absent.
 Proof.
-  induction a as [|[k v] a IH]; cbn [app get]; [reflexivity|].
-  rewrite IH. destruct (smem k ns); [|reflexivity].
-  destruct (get ns a), (get ns b); reflexivity.
+  induction fs as [|f fs IH]; cbn [countf kv_of get]; [reflexivity|].
+  destruct f as [k v|k [v|]]; cbn [fkey get]; destruct (smem k ns); intros H; try (apply IH; lia); lia.
 Qed.
-Lemma get_nil ns : get ns [] = Absent. Proof. reflexivity. Qed.
-Lemma get_fld ns k v : get ns (fld k v) = if smem k ns then Once v else Absent.
-Proof. cbn. destruct (smem k ns); reflexivity. Qed.
-Lemma get_ofld {A} ns k (e : A -> json) o : get ns (ofld k e o) = if smem k ns then olook e o else Absent.
-Proof. destruct o; cbn; destruct (smem k ns); reflexivity. Qed.
-Lemma lmerge_absent_r a : lmerge a Absent = a.
-Proof. destruct a; reflexivity. Qed.
-Lemma lmerge_absent_l a : lmerge Absent a = a.
-Proof. reflexivity. Qed.
+Lemma get_kv_of ns fs : (countf ns fs <=? 1)%nat = true -> get ns (kv_of fs) = getf ns fs.
+Proof.
+  induction fs as [|f fs IH]; cbn [countf kv_of get getf]; [reflexivity|].
+  intros H. apply Nat.leb_le in H.
+  destruct f as [k v|k [v|]]; cbn [fkey flook olook get] in *; destruct (smem k ns) eqn:E.
+  - rewrite get_kv_of_absent by lia. reflexivity.
+  - apply IH. apply Nat.leb_le. lia.
+  - rewrite get_kv_of_absent by lia. reflexivity.
+  - apply IH. apply Nat.leb_le. lia.
+  - apply get_kv_of_absent. lia.
+  - apply IH. apply Nat.leb_le. lia.
+Qed.
 
 (* ---- field readers on what the serialiser wrote ---- *)
 Lemma req_once {A} (e : A -> json) d `{!RT e d} a : req d (Once (e a)) = Some a.
@@ -148,9 +150,10 @@ Lemma req_once_n {A} (e : A -> json) d n `{!RTN e d n} a : req d (Once (e a)) = 
 Proof. cbn. apply rtn. Qed.
 Lemma req_absent {A} (d : json -> option A) : req d Absent = None.
 Proof. reflexivity. Qed.
-Lemma opt_olook {A} (e : A -> json) d `{!RT e d} `{!NN e} o : opt d (olook e o) = Some o.
+Lemma opt_olook {A} (e : A -> json) d `{!RT e d} `{!NN e} o : opt d (olook (option_map e o)) = Some o.
 Proof. destruct o; cbn; [|reflexivity]. rewrite nn, rt. reflexivity. Qed.
-Lemma opt_olook_n {A} (e : A -> json) d n `{!RTN e d n} `{!NN e} o : opt d (olook e o) = Some (option_map n o).
+Lemma opt_olook_n {A} (e : A -> json) d n `{!RTN e d n} `{!NN e} o :
+  opt d (olook (option_map e o)) = Some (option_map n o).
 Proof. destruct o; cbn; [|reflexivity]. rewrite nn, rtn. reflexivity. Qed.
 Lemma opt_once {A} (e : A -> json) d `{!RT e d} `{!NN e} o : opt d (Once (enc_opt e o)) = Some o.
 Proof. destruct o; cbn; [|reflexivity]. rewrite nn, rt. reflexivity. Qed.
@@ -172,7 +175,7 @@ Lemma encn_list_l {A} (e : A -> json) n `{!ENCN e n} l : enc_list e (map n l) = 
 Proof. apply (encn (enc := enc_list e)). Qed.
 Lemma encn_opt_l {A} (e : A -> json) n `{!ENCN e n} o : enc_opt e (option_map n o) = enc_opt e o.
 Proof. apply (encn (enc := enc_opt e)). Qed.
-Lemma encn_ofld {A} k (e : A -> json) n `{!ENCN e n} o : ofld k e (option_map n o) = ofld k e o.
+Lemma encn_omap {A} (e : A -> json) n `{!ENCN e n} o : option_map e (option_map n o) = option_map e o.
 Proof. destruct o; cbn; [|reflexivity]. rewrite encn. reflexivity. Qed.
 
 (* ---- the generic tactic ---- *)
@@ -193,12 +196,20 @@ Ltac eval_closed :=
       end
   end.
 
-Ltac rt_lookups :=
-  rewrite ?get_app, ?get_fld, ?get_ofld, ?get_nil;
-  eval_closed;
-  cbn beta iota;
-  rewrite ?lmerge_absent_l;
-  rewrite ?lmerge_absent_r.
+Ltac rt_lookup1 :=
+  first
+  [ match goal with
+    | |- context [vindex ?s ?nss] =>
+        let r := eval vm_compute in (vindex s nss) in
+        change (vindex s nss) with r
+    end
+  | match goal with
+    | |- context [get ?ns (kv_of ?fs)] =>
+        let r := eval lazy [getf smem existsb String.eqb Ascii.eqb Bool.eqb andb orb fkey flook] in (getf ns fs) in
+        replace (get ns (kv_of fs)) with r by (symmetry; exact (get_kv_of ns fs eq_refl))
+    end ];
+  cbn [bind orelse option_map]; cbn beta iota.
+Ltac rt_lookups := repeat rt_lookup1.
 
 Ltac rt_fields :=
   repeat (first
@@ -224,7 +235,7 @@ Ltac encn_go :=
   repeat (first
     [ rewrite encn_list_l by (typeclasses eauto)
     | rewrite encn_opt_l by (typeclasses eauto)
-    | rewrite encn_ofld by (typeclasses eauto) ]);
+    | rewrite encn_omap by (typeclasses eauto) ]);
   try reflexivity.
 
 (* recursive types: elements of a serialised list are strictly shallower than the list *)
